@@ -5,12 +5,11 @@ CONSTANTS
   Initial <- InitialABC
   Kinds = {"add", "remove", "promote", "demote"}
   AccessArgs <- ArgsPlain
-  Replica = {}
-  MaxOps = 3
+  Replica = {r1}
+  MaxOps = 2
   MaxRejected = 0
   Defect_TieBreakByPartialCmp = FALSE
-  Defect_NoopModifyUnchecked = FALSE
+  Defect_NoopModifyUnchecked = TRUE
   Defect_RecreateAccepted = FALSE
 INVARIANTS
-  ExportHistory
-CHECK_DEADLOCK FALSE
+  C33_OnlyAuthorized
